@@ -13,7 +13,8 @@ told = {1: 'independent sub-agent (given only the text of the property)',
         7: 'independent sub-agent (round 7: told only which six changes the earlier contributors had submitted, so as to pick a different site and mechanism)',
         8: 'independent sub-agent (round 8: told only which seven changes the earlier contributors had submitted, so as to pick a different site and mechanism)',
         9: 'independent sub-agent (round 9: told only which eight changes the earlier contributors had submitted, so as to pick a different site and mechanism)',
-        10: 'independent sub-agent (round 10: told only which nine changes the earlier contributors had submitted, so as to pick a different site and mechanism)'}
+        10: 'independent sub-agent (round 10: told only which nine changes the earlier contributors had submitted, so as to pick a different site and mechanism)',
+        11: 'independent sub-agent (round 11, ten properties: told only which ten changes the earlier contributors had submitted, so as to pick a different site and mechanism)'}
 for name, m in data.items():
     d = '/verif/seeded/' + name
     conf = open(d + '/confirm.txt').read()
